@@ -33,6 +33,18 @@ def _send(chk):
     return chk.ctx.func("_output", "Destinations.send")
 
 
+def fanout_anchor(ctx):
+    """The containment analysis (which exceptions can leave which call) rests on the fan-out loop of Destinations.send; without it in a
+    recognisable form every result that depends on "logging does not raise" is unfounded: not evaluated."""
+    send = ctx.func("_output", "Destinations.send")
+    cfg = ctx.cfg(send)
+    WHOLE = ("self._destinations", "self._destinations[:]", "list(self._destinations)", "tuple(self._destinations)", "self._destinations.copy()")
+    loops = common.for_loops(cfg, lambda st: unparse(st.iter) in WHOLE)
+    partial = common.for_loops(cfg, lambda st: "self._destinations" in unparse(st.iter))
+    if len(loops) != 1 and not partial:
+        raise AnalysisError("fan-out loop `for <dest> in self._destinations` not found exactly once in Destinations.send (found %d): the exception-containment analysis has no anchor" % len(loops))
+
+
 def fanout_loop(chk):
     send = _send(chk)
     cfg = chk.ctx.cfg(send)
